@@ -2,6 +2,7 @@
 C14 — connection slots are bounded by MaxConnections and always given back.
 -/
 import DtailModel.Model.Conn
+import DtailModel.Lemmas.GenConn
 namespace Dtail.C14
 open Dtail
 
@@ -138,6 +139,33 @@ theorem C14_old_defects :
     ∧ (∃ s, ([CLabel.connect, .connect, .handshakeOk 0, .handshakeOk 1].foldl
         (fun o l => o.bind (oldStep · l)) (some ⟨1, 0, []⟩)) = some s ∧ s.counter = 2) := by
   refine ⟨⟨_, rfl, by decide⟩, ⟨_, rfl, by decide⟩, ⟨_, rfl, by decide⟩⟩
+
+/-- **Tie G: the counter operations as translated from the working tree are the model's.**  `serverLimitExceeded`,
+    `incrementConnections` and `decrementConnections` of internal/server/stats.go, translated on this run: on states that
+    agree on the counter and the limit, what `listenerLoop` does when a connection arrives (refuse on a non-nil error,
+    otherwise take a slot) is the model's `connect` step — refused exactly when the model refuses — and the decrement is
+    what the model's `handshakeFail` and `close` steps do.  The model's invariant (`C14_full_holds`: the counter is the
+    number of open connections and never exceeds the limit) thereby speaks about these functions. -/
+theorem C14_generated_counter_refines_model (ext : Go.Ext) (g : Gen.Conn.stats) (s s' : ConnState) (i : Nat)
+    (hr : GenConn.Rel ext g s) :
+    (connStep s .connect = some s' →
+      GenConn.Rel ext (GenConn.accept ext g).1 s' ∧
+      ((GenConn.accept ext g).2 = false ↔ s'.conns = s.conns ++ [.refused])) ∧
+    ((connStep s (.handshakeFail i) = some s' ∨ connStep s (.close i) = some s') →
+      GenConn.Rel ext (Gen.Conn.stats.decrementConnections ext g) s') :=
+  ⟨GenConn.accept_refines ext g s s' hr, GenConn.release_refines ext g s s' i hr⟩
+
+/-- the translated limit test by itself: an error exactly when the counter has reached the configured limit, and the
+    counter is left as it was -/
+theorem C14_generated_limit_test (ext : Go.Ext) (g : Gen.Conn.stats) :
+    (Gen.Conn.stats.serverLimitExceeded ext g).1 = g ∧
+    ((Gen.Conn.stats.serverLimitExceeded ext g).2 ≠ none ↔ g.currentConnections ≥ ext.maxConnections) :=
+  GenConn.limit_spec ext g
+
+/-- non-vacuity: a full server refuses, one below the limit takes the slot -/
+example :
+    let ext : Go.Ext := { parseFloat := fun _ => (0, none), maxConnections := 2 }
+    (GenConn.accept ext ⟨2, 7⟩).2 = false ∧ (GenConn.accept ext ⟨1, 7⟩) = (⟨2, 8⟩, true) := by decide
 
 /-- non-vacuity: on the repaired transition function the same histories behave -/
 example : (connRun (connInit 3) [.connect, .handshakeOk 0, .close 0, .connect, .handshakeOk 1, .shell 1, .shell 1, .close 1]).map (·.counter)
